@@ -28,3 +28,5 @@ def rules(ctx):
     S.c07_rules(ctx)
     S.loop_completeness_rules(ctx)
     S.cache_reset_rules(ctx)
+    S.free_verdict_rules(ctx)
+    S.key_compare_rules(ctx)
